@@ -295,8 +295,16 @@ class LinearPolynomial(BaseDeferred):
         new_constant_term = self.constant_term
 
         for key, value in self.coeffs.items():
+            ready = False
             with try_compute:
                 key = key.wait()
+                ready = True
+            if not ready:
+                # If this is itself part of an attempt, it has failed; trying
+                # the same key once more below would only fail again (and
+                # makes the cost of an attempt exponential in the length of a
+                # chain of not yet computable definitions)
+                not_ready()
             if isinstance(key, BaseDeferred):
                 key = key.get_current_best_estimate()
 
